@@ -303,3 +303,37 @@ class _Random(types.ModuleType):
 
 
 shim.random = _Random('numpy.random')
+
+
+# ----------------------------------------------------------------------------- scipy.ndimage.map_coordinates: linear in the data
+def map_coordinates(input, coordinates, output=None, order=3, mode='constant', cval=0.0, prefilter=True):
+    """Spline interpolation is linear in the data for fixed coordinates: with concrete coordinates the result is
+    sum_k data_k * map_coordinates(e_k, coordinates) with the weights taken from the real scipy on the unit arrays
+    (realisation at the C boundary); concrete data go straight to the real function."""
+    if not is_sym(input) and not is_sym(coordinates):
+        return _scipy.ndimage.map_coordinates(input, coordinates, output=output, order=order, mode=mode, cval=cval, prefilter=prefilter)
+    coords = [concrete(to_sarr(c)) if is_sym(c) else rnp.asarray(c, dtype=float) for c in coordinates]
+    coords = rnp.asarray(coords, dtype=float)
+    data = to_sarr(input)
+    c = try_concrete(data)
+    if c is not None:
+        return _scipy.ndimage.map_coordinates(c.astype(float), coords, order=order, mode=mode, cval=cval, prefilter=prefilter)
+    out_shape = coords.shape[1:]
+    acc = rnp.empty(out_shape, dtype=object)
+    acc[...] = 0
+    for idx in rnp.ndindex(*data.shape):
+        v = data[idx]
+        if arrays._is_zero(v):
+            continue
+        e = rnp.zeros(data.shape)
+        e[idx] = 1.0
+        w = _scipy.ndimage.map_coordinates(e, coords, order=order, mode=mode, cval=0.0, prefilter=prefilter)
+        for o in rnp.ndindex(*out_shape):
+            if w[o] != 0.0:
+                acc[o] = acc[o] + v * float(w[o])
+    r = acc.view(arrays.SArr)
+    r.ldtype = 'float'
+    return r
+
+
+sp_ndimage.map_coordinates = map_coordinates
